@@ -941,13 +941,22 @@ class Tr:
         tup, sty = self.tuple_of(state)
         svar = tup if len(state) == 1 else 'st'
         lines = [f'{xs}.foldl (fun ({svar} : {sty}) ({var} : {LEANTY[et]}) =>']
-        if len(state) > 1:
-            lines.append(f'  let {tup} := st')
+        if len(state) > 1:      # the components of the state by projection (no pattern matching: the equalities rewrite under these binders)
+            names = [self.env[x][0] for x in state]
+            for i, nm in enumerate(names):
+                proj = 'st' + '.2' * i + ('.1' if i < len(names) - 1 else '')
+                lines.append(f'  let {nm} := {proj}')
         if pat:
             lines += ['  ' + l for l in pat]
         lines += [ind(l, 2) for l in inner.lets]
         lines.append(f'  {tup}) {tup}')
-        self.lets.append(f'let {tup} := ' + '\n  '.join(lines))
+        if len(state) > 1:
+            self.lets.append("let st' := " + '\n  '.join(lines))
+            names = [self.env[x][0] for x in state]
+            for i, nm in enumerate(names):
+                self.lets.append(f"let {nm} := st'" + '.2' * i + ('.1' if i < len(names) - 1 else ''))
+        else:
+            self.lets.append(f'let {tup} := ' + '\n  '.join(lines))
         self.kill(bound, state, tnames)
 
     def kill(self, bound, state, tnames):
